@@ -210,7 +210,8 @@ class Module(ABC):
         if key in [c._name for c in self.base.channels]:
             channel_names = [c._name for c in self.channels]
             inds = self.nodes.index[self.nodes[key]].to_numpy()
-            view = self.select(inds) if key in channel_names else self.select(None)
+            # If the channel is not in view, select nothing (`None` would select all).
+            view = self.select(inds if key in channel_names else np.array([], dtype=int))
             view._set_controlled_by_param(key)
             return view
 
@@ -220,10 +221,11 @@ class Module(ABC):
                 "global_edge_index"
             ].to_numpy()
             orig_scope = self._scope
+            # If the synapse is not in view, select nothing (`None` would select all).
             view = (
                 self.scope("global").edge(syn_inds).scope(orig_scope)
                 if key in self.synapse_names
-                else self.select(None)
+                else self.select(np.array([], dtype=int))
             )
             view._set_controlled_by_param(key)  # overwrites param set by edge
             # Ensure synapse param sharing works with `edge`
